@@ -118,13 +118,13 @@ class Classifier:
         if isinstance(e, ast.Call):
             cn = dotted(e.func)
             if cn in ("numpy.linalg.norm", "np.linalg.norm") and e.args:
-                a = e.args[0]
+                a = self._deref(e.args[0])
                 if lib.kw(e, "axis") is None and isinstance(a, ast.BinOp) and isinstance(a.op, ast.Sub):
                     return Q("DIST", owners_of(a, self.roles), "norm of a difference of two reference points", anchor={self.anchor_of(a.left), self.anchor_of(a.right)})
             if cn in ("numpy.max", "np.max", "max") and e.args:
-                a = e.args[0]
+                a = self._deref(e.args[0])
                 if isinstance(a, ast.Call) and dotted(a.func) in ("numpy.linalg.norm", "np.linalg.norm") and a.args:
-                    inner = a.args[0]
+                    inner = self._deref(a.args[0])
                     if isinstance(inner, ast.BinOp) and isinstance(inner.op, ast.Sub) and "vertices" in unparse(inner.left):
                         src = unparse(inner.left)
                         # vertices of the operand's own mesh are points of the operand; corners of its bounding box are not
@@ -133,13 +133,22 @@ class Classifier:
                     if "vertices" in unparse(inner):
                         return Q("OVER", owners_of(inner, self.roles), "max vertex norm", anchor={"center"})
             if cn == "abs" and e.args:
-                a = e.args[0]
+                a = self._deref(e.args[0])
                 if "signed_distance" in unparse(a):
                     # distance from a point to the surface the ProximityQuery was built on
                     pq = self._pq_owner(a)
                     pt = [c.args[0] for c in ast.walk(a) if isinstance(c, ast.Call) and isinstance(c.func, ast.Attribute) and c.func.attr == "signed_distance" and c.args]
                     return Q("UNDER", pq, "distance from the reference point to the operand's surface", anchor={self.anchor_of(pt[0])} if pt else ())
         return Q("UNK")
+
+    def _deref(self, e, depth=0):
+        """A local with a single definition stands for that definition (an extracted argument is the argument)."""
+        while isinstance(e, ast.Name) and depth < 6:
+            v = self._one(self.env, e.id)
+            if v is None:
+                break
+            e, depth = v, depth + 1
+        return e
 
     def _resolved_text(self, e, depth=0):
         if isinstance(e, ast.Name) and depth < 4:
